@@ -7,6 +7,29 @@ export VERIF_DIR="$HERE"
 mkdir -p "$HERE/bin" "$HERE/build" "$HERE/evidence"
 cd "$HERE/harness" || exit 2
 cp /repo/go.sum go.sum 2>/dev/null
+ID="${1:-}"
+case "$ID" in
+  C04|C16)
+    # schedule-controlled build: instrument the current sources, build with the overlay
+    if ! go build -o "$HERE/bin/instrument" ./cmd/instrument 2>"$HERE/build/build.err"; then
+      echo "BUILD FAILED (instrumenter):"; cat "$HERE/build/build.err"; exit 2
+    fi
+    if ! (cd /repo && "$HERE/bin/instrument" /repo "$HERE/build/sched" "$HERE/harness/vsched_src/vsched.go") >"$HERE/build/instrument.out" 2>&1; then
+      echo "TOOL ERROR (instrumenter could not rewrite the current sources):"; cat "$HERE/build/instrument.out"; exit 2
+    fi
+    cat "$HERE/build/instrument.out"
+    if ! go build -tags "verif sched" -overlay "$HERE/build/sched/overlay.json" -o "$HERE/bin/check-sched" ./cmd/check 2>"$HERE/build/build.err"; then
+      echo "BUILD FAILED (schedule-controlled harness against /repo working tree):"; cat "$HERE/build/build.err"; exit 2
+    fi
+    if [ "$ID" = "C16" ]; then
+      if ! go build -race -tags "verif sched" -overlay "$HERE/build/sched/overlay.json" -o "$HERE/bin/check-race" ./cmd/check 2>"$HERE/build/build.err"; then
+        echo "BUILD FAILED (race build):"; cat "$HERE/build/build.err"; exit 2
+      fi
+    fi
+    cd "$HERE"
+    exec "$HERE/bin/check-sched" "$@"
+    ;;
+esac
 if ! go build -tags verif -o "$HERE/bin/check" ./cmd/check 2>"$HERE/build/build.err"; then
   echo "BUILD FAILED (harness against /repo working tree):"
   cat "$HERE/build/build.err"
